@@ -68,6 +68,8 @@ pub struct SampleQueueSender {
     queue: Arc<SpscRing<MediaSample>>,
     notify: Arc<Notify>,
     pop_lock: Arc<parking_lot::Mutex<()>>,
+    /// Serialises producers: the ring is single-producer, but `&SampleQueueSender` is `Sync`.
+    push_lock: parking_lot::Mutex<()>,
     closed: Arc<std::sync::atomic::AtomicBool>,
 }
 
@@ -88,6 +90,7 @@ fn sample_queue_channel(capacity: usize) -> (SampleQueueSender, SampleQueueRecei
             queue: queue.clone(),
             notify: notify.clone(),
             pop_lock: pop_lock.clone(),
+            push_lock: parking_lot::Mutex::new(()),
             closed: closed.clone(),
         },
         SampleQueueReceiver {
@@ -110,6 +113,7 @@ impl SampleQueueSender {
             return Err(());
         }
 
+        let _push_guard = self.push_lock.lock();
         let sample = match self.queue.push(sample) {
             Ok(()) => {
                 #[cfg(rustrtc_verif)]
@@ -145,6 +149,7 @@ impl SampleQueueSender {
             return Err(sample);
         }
 
+        let _push_guard = self.push_lock.lock();
         match self.queue.push(sample) {
             Ok(()) => {
                 #[cfg(rustrtc_verif)]
